@@ -172,3 +172,78 @@ def generate(prop, label):
 
 
 LABELS = ["high_none", "high_given"]
+
+
+# ------------------------------------------------------------------------------------------
+# ComplexGammatoneFilterBank.__init__, the statements up to the band edges (a statement slice: the per-filter constants - bandwidth,
+# normalisation, supports - are numeric and left to the bounded stand-in): rejection of bad ranges and orders, edge layout
+# ------------------------------------------------------------------------------------------
+
+
+def sel_gamma_prefix(fn):
+    out = []
+    for s in fn.body:
+        out.append(s)
+        if isinstance(s, ast.Assign) and ast.unparse(s.targets[0]) == "edges":
+            return out
+    return []
+
+
+def setup_gamma(high_none):
+    def _setup(ex, st):
+        n, order = api.sym("num_filts"), api.sym("order")
+        low, rate = api.sym("low_hz", "real"), api.sym("sampling_rate", "real")
+        st.assume(z3.And(n >= 1, rate > 0))
+        st.assume(low < z3.ToReal(z3.ToInt(rate / 2)))
+        api.mk_obj(st, "self", "ComplexGammatoneFilterBank", {})
+        high = None if high_none else api.sym("high_hz", "real")
+        if high is not None:
+            st.assume(high != 0)
+        st.env.update({"scaling_function": Opaque("scale_arg", "arg"), "num_filts": n, "high_hz": high, "low_hz": low, "sampling_rate": rate,
+                       "order": order, "max_centered": api.sym("max_centered", "bool"), "scale_l2_norm": api.sym("l2", "bool"), "erb": api.sym("erb", "bool")})
+        st.ghost["HIGH0"] = z3.ToReal(z3.ToInt(rate / 2)) if high_none else high
+        for ax in scale_axioms():
+            ex.axioms.append(ax)
+        ex.ctx = dict(n=n, rate=rate, low=low)
+    return _setup
+
+
+def _h_isinstance_int(ex, st, args, kwargs, node, ev):
+    obj, cls = args
+    if symex.is_z3(obj) and z3.is_int(obj) and getattr(cls, "name", None) == "int":
+        return True
+    raise Outside("isinstance form")
+
+
+def contract_gamma(high_none):
+    rng = "low_hz < 0" if high_none else "low_hz < 0 or (high_hz != 0 and (high_hz <= low_hz or high_hz > HALF()))"
+    consts = {"S": SpecFn(lambda ev, x: S(to_real(x))), "ScalingFunction": Opaque("ScalingFunction", "class"),
+              "HALF": SpecFn(lambda ev: z3.ToReal(z3.ToInt(to_real(ev.st.env["sampling_rate"]) / 2))),
+              "EDGE": SpecFn(lambda ev, k: to_real(ev.st.env["edges"].getter(Z(k)))), "int": symex.Builtin("int")}
+    handlers = dict(SCALE_HANDLERS)
+    handlers["isinstance"] = _h_isinstance_int
+    c = Contract(
+        target="filters:ComplexGammatoneFilterBank.__init__", uses=["A-REAL", "A-PYSEM"], consts=consts, handlers=handlers,
+        raises={"ValueError": f"({rng}) or order <= 0"},
+        ensures=[
+            ("edges_equally_spaced_on_scale", "forall(k, 0, num_filts + 1, S(EDGE(k)) == S(low_hz) + ((S(HIGH0) - S(low_hz)) / (num_filts + 1)) * (k + 1 / 2))"),
+            ("edges_strictly_increasing", "forall(k, 0, num_filts, EDGE(k) < EDGE(k + 1))"),
+            ("order_and_rate_kept", "self._order == order and self._rate == sampling_rate"),
+        ],
+    )
+    c.canaries = [("edges_at_whole_steps", "forall(k, 0, num_filts + 1, S(EDGE(k)) == S(low_hz) + ((S(HIGH0) - S(low_hz)) / (num_filts + 1)) * k)")]
+    return c
+
+
+def generate_gamma(prop, label):
+    from contracts.registry import run_contract
+    from pyvc import extract
+    from pyvc.check import UnitResult
+    hn = label == "high_none"
+    try:
+        fx = extract.get_slice("filters", "ComplexGammatoneFilterBank.__init__", sel_gamma_prefix, "range / order checks and band edges")
+    except KeyError as e:
+        u = UnitResult("gamma_init_prefix")
+        u.outside.append(("filters:ComplexGammatoneFilterBank.__init__", str(e)))
+        return u
+    return run_contract(prop, fx, contract_gamma(hn), [(label, setup_gamma(hn))], name="gamma_init_prefix", fname="ComplexGammatoneFilterBank.__init__#prefix")
